@@ -569,7 +569,8 @@ class FileIndex(Index):
                 info = self._read_toc()
                 return self._reader(self.storage, info.schema, info.segments,
                                     info.generation, reuse=reuse)
-            except IOError:
+            except (IOError, NameError):
+                # (a RamStorage raises NameError for a file that is not there)
                 # Presume that we got a "file not found error" because a writer
                 # deleted one of the files just as we were trying to open it,
                 # and so retry a few times before actually raising the
